@@ -1035,6 +1035,12 @@ fn alpha_c05(w: &mut World, s: &EngSt) -> Vec<Act> {
         acts.push(Act::blk(b));
     }
     acts.push(Act::Px { price: 8 * d });
+    // the owner tightens / relaxes the initial margin ratio mid-history: the leverage bound of the next order is the
+    // one in force (the boundary leverages above are computed from the live configuration)
+    let k = w.cfg.k();
+    for (imr, mmr) in [(100_000u128, 62_500u128), (200_000, 62_500), (62_500, 62_500)] {
+        acts.push(Act::EngConfig { by: "owner".into(), imr: Some(imr * k), mmr: Some(mmr * k), plr: None, lf: None });
+    }
     acts
 }
 
@@ -1286,6 +1292,7 @@ pub fn run_c06(tier: Tier) -> i32 {
     ]);
     seeds.push(seed_funding_receiver_slightly_under(true));
     seeds.push(seed_funding_receiver_slightly_under(false));
+    seeds.push(seed_busy_market());
     let mut push = |c: Cfg, d: usize| {
         exps.push(Exp { setup: None, name: "liq".into(), cfg: c, traders: T3.to_vec(), seeds: seeds.clone(), alpha: Alpha::Dyn(alpha_c06), depth: d, init_mon: Value::Null, raw: false });
     };
